@@ -55,6 +55,10 @@ CLAIM = dict(
           "choice).  Explicit start positions "
           "are non-negative (documented 0-based index).  A RecursionError of _Tree.add_field (instance values selecting "
           "fields of two children of one node) is modelled as an error and ends the history.  "
+          "Explicit definitions: assign_keeps_starts proves that assign_fields never moves a field that has a start "
+          "position; the oracle startsKeptB on the implementation's trees before / after every assign_fields reports a moved "
+          "explicit start as explicit-start-moved when assign_fields returned (with the overlap and too-narrow oracles this "
+          "is 'overlapping explicit definitions are rejected'); after a raising assign_fields it is a mismatch only.  "
           "Completeness is judged on what the ACCEPTED values require: the oracle evaluates floatingFitsB on the "
           "implementation's pre-assign tree with max_value replaced by the largest value of any __call__ that returned (1 "
           "for none); on the unchanged code the two trees are equal (validation first, recording after - the model's "
@@ -83,7 +87,7 @@ CLAIM = dict(
     technique="Lean 4 theorems over a hand-written model + differential correspondence on histories + Lean spec predicates as oracle")
 
 THEOREMS = ["max_value_default", "inv_init", "inv_addField", "inv_call", "inv_assignFields", "reachable_inv",
-            "assign_disjoint", "enabled_disjoint", "scope_unique", "wide_enough", "auto_length_covers", "call_rejects_wide",
+            "assign_disjoint", "enabled_disjoint", "scope_unique", "wide_enough", "auto_length_covers", "assign_keeps_starts", "startsKeptB_getElem", "call_rejects_wide",
             "reject_explicit_overflow", "reject_explicit", "valuesFit_of_le_max", "readback", "mask_exact",
             "mask_exact_tag", "orthogonal",
             # deepening round
@@ -110,7 +114,13 @@ RULE = ("histories of 6-40 operations generated against the running implementati
         "first+second, ...) is an instance on which get_mask / get_value (no tag, tag) / get_tags / "
         "get_location_and_length are called; for every instance of every history - complete or partially specified - "
         "get_mask() and get_mask(tag) are read back and judged by the Lean mask_exact oracle on the implementation's own "
-        "tree; plus a reject stream: nothing positioned, nested scopes, "
+        "tree; plus an order stream: 2-4 fields (one optionally in a child scope), each one of "
+        "the four combinations {start_at given or not} x {length given or not}, given starts on boundary bits (0, 1, the top, "
+        "just below it) or next to / one bit into a neighbour, values that make automatic lengths stop short of, touch or "
+        "run into the next explicit start above, the same plan in EVERY definition order (all permutations up to 3 fields; "
+        "for 4: first, last, three random, positioned-before-unpositioned and the reverse), values given in one or two "
+        "calls; after every assign_fields the Lean predicate startsKeptB compares the implementation's trees before and "
+        "after (an explicitly positioned field keeps its start); plus a reject stream: nothing positioned, nested scopes, "
         "automatic-length fields, calls REJECTED by a later keyword (negative value, value too large for a fixed-length "
         "field, unavailable / unknown field) whose EARLIER keywords carry values (100 ... 2^19) larger than anything "
         "accepted, each history re-run on the bit field exactly tight (or +-1) for the values accepted before the first "
@@ -778,6 +788,76 @@ def gen_reject_history(rng):
     return seal(run)
 
 
+def order_plans(rng):
+    """a small set of fields at the root (optionally one in a child scope), each one of the four combinations
+    {start_at given or not} x {length given or not}; given starts sit on boundary bits (0, 1, the top, just below the
+    top) or next to / one bit into a neighbour; values make automatic lengths stop short of, touch or run into the next
+    explicit start above; returned with the definition orders to try (all permutations for <= 3 fields)"""
+    import itertools
+    L = rng.choice([8, 8, 12, 16, 32])
+    n = rng.choice([2, 2, 3, 3, 4])
+    specs = []
+    for j in range(n):
+        mode = rng.choice(["sf", "sf", "sl", "sl", "fl", "ff"])
+        length = None if mode[1] == "f" else rng.choice([1, 2, 3, 4])
+        w = length or 1
+        start = None
+        if mode[0] == "s":
+            cands = [0, 0, 1, L - w, L - 1 - w, L - w]
+            for (_, s0, l0, _t) in specs:
+                if s0 is not None:
+                    e0 = s0 + (l0 or 1)
+                    cands += [e0, e0, e0 - 1, e0 + 1, s0 - w, s0 - w + 1, s0 + rng.choice([2, 3])]
+            cands = [c for c in cands if 0 <= c and c + w <= L] or [0]
+            start = rng.choice(cands)
+        specs.append(("abcd"[j], start, length, rng.sample(TAGS, rng.choice([0, 0, 1]))))
+    starts = sorted(s0 for (_, s0, _, _) in specs if s0 is not None)
+    values = {}
+    for (nm, s0, l0, _t) in specs:
+        if l0 is not None:
+            values[nm] = rng.choice([0, 1, (1 << l0) - 1])
+        elif s0 is not None:
+            above = [q for q in starts if q > s0]
+            ln = (above[0] - s0 + rng.choice([-1, 0, 1, 1, 2])) if above and rng.random() < 0.85 else rng.choice([1, 2, 5, 8])
+            ln = max(1, ln)
+            values[nm] = rng.choice([1 << (ln - 1), (1 << ln) - 1]) if ln > 1 else rng.randrange(2)
+        else:
+            values[nm] = rng.choice([0, 1, 3, 7, 255])
+    scoped = rng.random() < 0.3      # the last field lives in the scope s=1 of a floating 1-bit selector
+    orders = list(itertools.permutations(range(n)))
+    if len(orders) > 6:
+        orders = [orders[0], orders[-1]] + rng.sample(orders[1:-1], 3)
+        # positioned fields before unpositioned ones, and the other way round
+        by_pos = sorted(range(n), key=lambda j: specs[j][1] is None)
+        orders += [tuple(by_pos), tuple(reversed(by_pos))]
+    return L, specs, values, scoped, orders
+
+
+def run_order_plan(rng, L, specs, values, scoped, order, two_calls):
+    run = new_runner(rng, L)
+    insts = {False: 0}
+    if scoped:
+        run.do({"op": "add", "inst": 0, "ident": "s", "length": 1, "start": None, "tags": []})
+        if "ok" in run.do({"op": "call", "inst": 0, "kw": [["s", 1]]}):
+            insts[True] = len(run.insts) - 1
+    added = []
+    for j in order:
+        nm, s0, l0, tags = specs[j]
+        inner = scoped and j == len(specs) - 1 and True in insts
+        if "ok" in run.do({"op": "add", "inst": insts[inner], "ident": nm, "length": l0, "start": s0, "tags": tags}):
+            added.append((nm, inner))
+    base = insts.get(True, 0) if scoped else 0
+    kw = [[nm, values[nm]] for nm, inner in added if not inner or base != 0]
+    if two_calls and len(kw) > 1:            # the values arrive in two instances
+        run.do({"op": "call", "inst": base, "kw": kw[:1]})
+        run.do({"op": "call", "inst": base, "kw": kw[1:]})
+    elif kw:
+        run.do({"op": "call", "inst": base, "kw": kw})
+    if not run.dead:
+        finish(rng, run)
+    return seal(run)
+
+
 def gen_wide_history(rng):
     """bit fields of 64-160 bits with automatically sized neighbours whose largest values are 2^k, 2^k +- 1"""
     USED_VALUES.clear()
@@ -1121,6 +1201,10 @@ def eval_runs(ctx, runs):
                 ask("invariant", ri, (oi, op["op"], "ok" in r), op="invariant", length=run.length, entries=st)
                 last = st
         for oi, pre in run.pre_assign:
+            post = run.results[oi].get("state") if oi < len(run.results) else None
+            if post is not None and any(e["start"] is not None for e in pre):
+                ask("starts", ri, (oi, "ok" in run.results[oi]), op="starts_kept", pre=pre, post=post)
+        for oi, pre in run.pre_assign:
             # completeness is judged on what the ACCEPTED values require (a rejected call gave the field nothing)
             acc = run.pre_accepted.get(oi, pre)
             if acc != pre:
@@ -1194,6 +1278,17 @@ def eval_runs(ctx, runs):
                               "(instance %d, tag %r)" % (i, t), case)
             if not rep["mask_exact"] or not rep["mask_is_locs"]:
                 ctx.violation("mask", "mask is not the union of the present fields' bits (instance %d, tag %r)" % (i, t), case)
+        elif tag == "starts":
+            oi, ok = info
+            if rep is not True:
+                if ok:
+                    ctx.violation("explicit-start-moved", "assign_fields (op %d) returned, but a field defined with an explicit "
+                                  "start_at is no longer at that position: overlapping explicit definitions must be rejected, "
+                                  "not relocated" % oi, case)
+                else:
+                    ctx.tag("explicit-start-moved-by-raising-assign")
+                    ctx.mismatch("c08.starts", "assign_fields (op %d) raised and left an explicitly positioned field at "
+                                 "another position" % oi, case)
         elif tag == "pmask":
             i, t, nv = info
             ctx.tag("mask_of_instance_with_%s_values" % (nv if nv < 4 else "4+"))
@@ -1260,6 +1355,10 @@ def eval_runs(ctx, runs):
             ctx.tag("tight_for_accepted_%+d_assign_%s" % (run.tight_for_accepted, "ok" if assigned_ok else "raises"))
         if getattr(run, "deep", False):
             ctx.tag("deep_assign_%s" % ("ok" if assigned_ok else "raises"))
+        if getattr(run, "order_stream", False):
+            ctx.tag("order_assign_%s" % ("ok" if assigned_ok else "raises"))
+            if any(e["start"] == 0 and e["length"] is None for oi, pre in run.pre_assign[:1] for e in pre):
+                ctx.tag("order_auto_length_at_bit_0")
         for o, r in zip(run.ops, run.results):
             ctx.tag("%s_%s" % (o["op"], "ok" if "ok" in r else r["err"]))
         if any(o.get("spare") for o in run.ops):
@@ -1413,6 +1512,23 @@ def run(ctx):
             eval_runs(ctx, runs)
             runs = []
     ctx.tag("reject_histories_%d" % made_r)
+    # the four start/length combinations on boundary bits, in every definition order
+    n_plans = ctx.scale(160, 2500) * (4 if ctx.extended else 1)
+    made_o = 0
+    for _ in range(n_plans):
+        if _HANGS[0] >= 60:
+            break
+        L, specs, values, scoped, orders = order_plans(rng)
+        two = rng.random() < 0.3
+        for order in orders:
+            run_ = run_order_plan(rng, L, specs, values, scoped, order, two)
+            run_.order_stream = True
+            runs.append(run_)
+            made_o += 1
+        if len(runs) >= 1500:
+            eval_runs(ctx, runs)
+            runs = []
+    ctx.tag("order_histories_%d" % made_o)
     batch = 2500
     made = 0
     while made < n and _HANGS[0] < 60:
